@@ -1,1 +1,15 @@
-//! in-daemon verification module (mrt_verif): child of the daemon module, sees its private items.
+//! in-daemon verification module (mrt_verif): child of the daemon's `mrt` module, sees its private items.
+use super::*;
+
+pub(crate) fn adj_rib_in(change: &AdjRibInChange) -> mrt::Message {
+    adj_rib_in_to_mrt(change)
+}
+
+/// Run the real TABLE_DUMP_V2 writer into `path` and return the bytes written.
+pub(crate) async fn dump(router_id: Ipv4Addr, tables: &TableHandle, path: &std::path::Path) -> Result<Vec<u8>, String> {
+    let mut file = tokio::fs::File::create(path).await.map_err(|e| e.to_string())?;
+    dump_table(router_id, tables, &mut file).await.map_err(|e| format!("{e:?}"))?;
+    file.flush().await.map_err(|e| e.to_string())?;
+    drop(file);
+    tokio::fs::read(path).await.map_err(|e| e.to_string())
+}
